@@ -36,3 +36,24 @@ FAMILIES["stack"] = {
         ]},
     ],
 }
+
+FAMILIES["cow"] = {
+    "anchor": "src/cowslice.rs (whole file)",
+    "bound": "buffer length 4, windows (0,4) (1,4) (1,3) (0,2), counts <= 2 (concrete sizes, symbolic contents)",
+    "header": "use crate::shim::{EcoVec, FillValue};\n",
+    "rewrites": (PUBCRATE, ("R4", r"(?m)^//![^\n]*\n", "", "inner doc comment dropped")),
+    "dropped": "serde Serialize/Deserialize impls, `use serde::*`, the `cowslice!` macro and its re-export, `use ecow::EcoVec`, `use crate::context::FillValue` (replaced by the shim's model), the three #[test] fns",
+    "groups": [
+        {"items": [{"kind": "file_minus", "name": "cowslice.rs", "file": "src/cowslice.rs", "drop": [
+            ("line", r"^use serde::\*;\n"),
+            ("line", r"^use ecow::EcoVec;\n"),
+            ("line", r"^use crate::context::FillValue;\n"),
+            ("line", r"^pub\(crate\) use cowslice;\n"),
+            ("block", r"^macro_rules! cowslice \{"),
+            ("block", r"^#\[test\]\nfn cow_slice_modify\(\) \{"),
+            ("block", r"^#\[test\]\nfn cow_slice_deref_mut\(\) \{"),
+            ("block", r"^impl<T: Clone> Serialize for CowSlice<T>\nwhere\n    T: Serialize,\n\{"),
+            ("block", r"^impl<'de, T: Clone> Deserialize<'de> for CowSlice<T>\nwhere\n    T: Deserialize<'de>,\n\{"),
+        ]}]},
+    ],
+}
